@@ -15,7 +15,7 @@ class Timeout(Exception):
 def membership(goal_terms, hyps_terms, names, budget=8.0):
     """goal_terms / hyps_terms: dicts {exponent tuple over `names`: int coeff}.
     Returns list of cofactor dicts (rational coefficients as (num, den)) or None."""
-    t0 = time.time()
+    t0 = time.process_time()
     R = ring(names, QQ, grevlex)[0]
 
     def mk(terms):
@@ -38,7 +38,7 @@ def membership(goal_terms, hyps_terms, names, budget=8.0):
         # we accumulate: p_current = p_orig - sum q_k*B_k ; cof tracks representation of (sum q_k B_k) in terms of hs
         cof = list(pc)
         while p != 0:
-            if time.time() - t0 > budget:
+            if time.process_time() - t0 > budget:
                 raise Timeout()
             lm, lc = p.LM, p.LC
             done = False
@@ -70,7 +70,7 @@ def membership(goal_terms, hyps_terms, names, budget=8.0):
     pairs = [(i, j) for i in range(len(B)) for j in range(i)]
     try:
         while pairs:
-            if time.time() - t0 > budget:
+            if time.process_time() - t0 > budget:
                 raise Timeout()
             pairs.sort(key=lambda ij: sum(monomial_lcm(B[ij[0]][0].LM, B[ij[1]][0].LM)), reverse=True)
             i, j = pairs.pop()
@@ -109,7 +109,7 @@ def pack(cofs):
 def membership_multi(goals_terms, hyps_terms, names, budget=8.0):
     """like membership() for several goals over one tracked Groebner basis of the hypotheses.
     Returns a list (one entry per goal): cofactor dicts or None."""
-    t0 = time.time()
+    t0 = time.process_time()
     R = ring(names, QQ, grevlex)[0]
 
     def mk(terms):
@@ -130,7 +130,7 @@ def membership_multi(goals_terms, hyps_terms, names, budget=8.0):
         r = zero
         cof = list(pc)
         while p != 0:
-            if deadline and time.time() - t0 > budget:
+            if deadline and time.process_time() - t0 > budget:
                 raise Timeout()
             lm, lc = p.LM, p.LC
             done = False
@@ -164,7 +164,7 @@ def membership_multi(goals_terms, hyps_terms, names, budget=8.0):
         pairs = [(i, j) for i in range(len(B)) for j in range(i)]
         added = 0
         while pairs:
-            if time.time() - t0 > budget:
+            if time.process_time() - t0 > budget:
                 raise Timeout()
             pairs.sort(key=lambda ij: sum(monomial_lcm(B[ij[0]][0].LM, B[ij[1]][0].LM)), reverse=True)
             i, j = pairs.pop()
